@@ -19,8 +19,8 @@ use serde::{Deserialize, Serialize};
 use serde_json::json;
 use std::time::Duration;
 
-pub const FAULT_KINDS: [&str; 7] =
-    ["exit_silent", "exit_nonzero", "status_no_model", "truncated_model", "garbage", "unknown", "crash"];
+pub const FAULT_KINDS: [&str; 8] =
+    ["exit_silent", "exit_nonzero", "status_no_model", "truncated_model", "garbage", "unknown", "crash", "garbage_after"];
 
 #[derive(Clone, Debug, Serialize, Deserialize)]
 pub struct ProblemCase {
@@ -343,7 +343,7 @@ impl Prop for Faults {
         "fault_enumeration"
     }
     fn rule(&self) -> String {
-        "For each generated (framework <=8 arguments, problem among the 21, selectable encoder, argument, certificate flag) and each generated dynamic-solver history (C08 generator), the clean run is checked against the reference semantics and its number k of SAT calls is recorded; then the query is re-run once for EVERY position j in 1..k with the failure at call j: SolvingResult::Unknown through a wrapper (library level, static and dynamic solvers), and the kinds {exit without output, non-zero exit, status without model, truncated model / truncated status, stray line, s UNKNOWN, abort} through the harness-owned external solver, plus a solver program that cannot be started at all, (ExternalSatSolver and `crustabri solve --external-sat-solver`). The call must unwind / the process must exit non-zero without an answer line. One evaluation = one (case, position, kind). Non-trivial: k >= 2 (the failure can hit a second-level call); distinct = (case, level, j, kind).".into()
+        "For each generated (framework <=8 arguments, problem among the 21, selectable encoder, argument, certificate flag) and each generated dynamic-solver history (C08 generator), the clean run is checked against the reference semantics and its number k of SAT calls is recorded; then the query is re-run once for EVERY position j in 1..k with the failure at call j: SolvingResult::Unknown through a wrapper (library level, static and dynamic solvers), and the kinds {exit without output, non-zero exit, status without model, truncated model / truncated status, stray line before or after the verdict, s UNKNOWN, abort} through the harness-owned external solver, plus a solver program that cannot be started at all, (ExternalSatSolver and `crustabri solve --external-sat-solver`). The call must unwind / the process must exit non-zero without an answer line. One evaluation = one (case, position, kind). Non-trivial: k >= 2 (the failure can hit a second-level call); distinct = (case, level, j, kind).".into()
     }
     fn assumptions(&self) -> Vec<String> {
         vec![
